@@ -1411,3 +1411,37 @@ def readsig(tier, seed, ci, nc, count=4000):
 
 
 STREAMS['readsig'] = readsig
+
+
+def resplit(tier, seed, ci, nc, count=20000):
+    """`sig_str.split(',')` and `re_paramname.match(part).groups()` against Model/ReadSigText.lean: every text over the alphabet
+    {a, b, space, ':', '=', '*', ','} up to length 5 (quick) / 6 (thorough), then longer random ones, then the texts of the
+    signatures of the universe in several spacings"""
+    rng = _rng(seed, 'resplit', ci)
+    alpha = 'ab :=*,'
+    maxlen = 5 if tier == 'quick' else 6
+
+    def gen():
+        for L in range(0, maxlen + 1):
+            for t in itertools.product(alpha, repeat=L):
+                yield ('resplit', ''.join(t))
+        big = alpha + '<>/c\t40'
+        for _ in range(count):
+            yield ('resplit', ''.join(rng.choice(big) for _ in range(rng.randint(6, 24))))
+        from . import real_r8
+        for j, ps0 in enumerate(U('abc', 3)):
+            if j % 7:
+                continue
+            pcs = []
+            prev = None
+            for i, (n, k, d) in enumerate(p[:3] for p in ps0):
+                if k == 'ko' and prev not in ('vp', 'ko'):
+                    pcs.append(('B',))
+                pcs.append(({'vp': 's1', 'vk': 's2'}.get(k, 'p'), n, 40 + i if (i + j) % 2 else None, None if d is None else 3 + i))
+                prev = k
+            for sep in (', ', ',', ' ,  '):
+                yield ('resplit', real_r8.text_of(pcs, sep))
+    return _slice(gen(), ci, nc)
+
+
+STREAMS['resplit'] = resplit
